@@ -81,6 +81,7 @@ GNext ==
     \/ PrereqValues /\ Quiet /\ Same
     \/ PrereqValuesLenient /\ Quiet /\ Same
     \/ Prescan /\ Quiet /\ Same
+    \/ PrescanEmptyRdata /\ Quiet /\ Same
     \/ GApplyRR /\ Quiet
     \/ GFinish /\ Quiet /\ Same
     \/ FinishInc /\ Quiet /\ Same
